@@ -463,6 +463,15 @@ pub fn deviations(img: &[u8], l: &Layout) -> Vec<Deviation> {
         let mut name = vec![0u8; 64];
         name[0] = b'R';
         out.push(dev("wrong-root-name", "root entry named \"R\"".into(), vec![(r.offset, name), (r.offset + 64, vec![4, 0])]));
+        // names that are ALMOST right: another letter case, one unit short, one unit long
+        for wrong in ["ROOT ENTRY", "root entry", "Root entry", "Root Entr", "Root Entry2"] {
+            let mut name = vec![0u8; 64];
+            for (i, u) in wrong.encode_utf16().enumerate() {
+                name[2 * i..2 * i + 2].copy_from_slice(&u.to_le_bytes());
+            }
+            let len_field = ((wrong.encode_utf16().count() + 1) * 2) as u16;
+            out.push(dev("wrong-root-name", format!("root entry named {:?}", wrong), vec![(r.offset, name), (r.offset + 64, len_field.to_le_bytes().to_vec())]));
+        }
     }
     // 9. CLSID / timestamps on a stream
     for e in l.entries.iter().filter(|e| e.reachable && e.obj_type == 2) {
@@ -483,6 +492,12 @@ pub fn deviations(img: &[u8], l: &Layout) -> Vec<Deviation> {
         out.push(dev("wrong-num-fat-sectors", "-1".into(), vec![(44, le32(l.hdr_num_fat - 1))]));
     }
     out.push(dev("wrong-num-difat-sectors", "+1".into(), vec![(72, le32(l.hdr_num_difat + 1))]));
+    if l.hdr_num_difat > 0 {
+        out.push(dev("wrong-num-difat-sectors", "-1".into(), vec![(72, le32(l.hdr_num_difat - 1))]));
+        if l.hdr_num_difat > 1 {
+            out.push(dev("wrong-num-difat-sectors", "=0".into(), vec![(72, le32(0))]));
+        }
+    }
     out.push(dev("wrong-num-minifat-sectors", "+1".into(), vec![(64, le32(l.hdr_num_minifat + 1))]));
     if l.hdr_num_minifat > 0 {
         out.push(dev("wrong-num-minifat-sectors", "-1".into(), vec![(64, le32(l.hdr_num_minifat - 1))]));
